@@ -1,11 +1,13 @@
 import PeptVerif.Model.Proto
 import PeptVerif.Model.Serialize
+import PeptVerif.Spec.ProForma
 /-! line-protocol step function shared by the drivers of C01 and C09: the parser / serializer model over the line protocol.
 
 ops
 * `parse <fixed 0|1> <escaped text>`      → `A<dump>` | `M<dump>~<conn>~<dump>…` | `ERR:<class>`
 * `serialize <plus 0|1> <A…|M…>`          → `S<escaped text>` | `ERR:<class>`
 * `convert <escaped text>`                → wire form of `convert_type(text)`
+* `canon <A…|M…>`                         → `1` iff the object satisfies `Pept.canonParsed` (Spec/ProForma.lean)
 * `rt <plus> <A…>`                        → `1` iff `parse (serialize plus a) = ok a` in the model (diagnostic)
 -/
 open Proto Pept Pept.Wire
@@ -36,6 +38,10 @@ def readMulti : List String → Option (List Annotation × List (Option Bool))
   | [d] => do
     let a ← parseAnnotation? d
     pure ([a], [])
+  | d :: "!" :: rest => do   -- the connection list ended before the chains did
+    let a ← parseAnnotation? d
+    let (as, _) ← readMulti rest
+    pure (a :: as, [])
   | d :: c :: rest => do
     let a ← parseAnnotation? d
     let c ← parseConn? c
@@ -67,6 +73,10 @@ def step (line : String) : String :=
   | ["convert", s] =>
     match unesc s with
     | some s => showVal (convertType s)
+    | none => "bad-op"
+  | ["canon", d] =>
+    match readParsed? d with
+    | some p => if canonParsed p then "1" else "0"
     | none => "bad-op"
   | ["rt", plus, d] =>
     match parseBool? plus, readParsed? d with
